@@ -130,4 +130,664 @@ theorem selectivity_loadings (x0 x1 m0 m1 y0 y1 : α) (hinv : inverseLoading [x0
 
 end A
 
+/-! ## B. closed forms -/
+
+/-- `S = Σ K_i p_i` -/
+noncomputable def mixS (Ks ps : List ℝ) : ℝ := (List.zipWith (· * ·) Ks ps).sum
+
+/-- the closed-form adsorbed fractions `x_i = K_i p_i / S` -/
+noncomputable def mixX (Ks ps : List ℝ) : List ℝ := List.zipWith (fun K p => K * p / mixS Ks ps) Ks ps
+
+section helpersB
+
+lemma zipWith_mul_pos : ∀ (Ks ps : List ℝ), (∀ K ∈ Ks, 0 < K) → (∀ p ∈ ps, 0 < p) →
+    ∀ w ∈ List.zipWith (· * ·) Ks ps, 0 < w
+  | [], _, _, _ => by simp
+  | _ :: _, [], _, _ => by simp
+  | K :: Ks, p :: ps, hK, hp => by
+    intro w hw
+    rw [List.zipWith_cons_cons, List.mem_cons] at hw
+    rcases hw with rfl | hw
+    · exact mul_pos (hK K (by simp)) (hp p (by simp))
+    · exact zipWith_mul_pos Ks ps (fun K' h => hK K' (List.mem_cons_of_mem _ h))
+        (fun p' h => hp p' (List.mem_cons_of_mem _ h)) w hw
+
+lemma mixS_pos (Ks ps : List ℝ) (hlen : Ks.length = ps.length) (hne : Ks ≠ [])
+    (hK : ∀ K ∈ Ks, 0 < K) (hp : ∀ p ∈ ps, 0 < p) : 0 < mixS Ks ps := by
+  apply List.sum_pos _ (zipWith_mul_pos Ks ps hK hp)
+  intro h
+  have h' := congrArg List.length h
+  simp only [List.length_zipWith, ← hlen, min_self, List.length_nil] at h'
+  exact hne (List.length_eq_zero_iff.mp h')
+
+lemma mixX_eq_map (Ks ps : List ℝ) :
+    mixX Ks ps = (List.zipWith (· * ·) Ks ps).map (· / mixS Ks ps) := by
+  unfold mixX; rw [List.map_zipWith]
+
+lemma mixX_length (Ks ps : List ℝ) (hlen : Ks.length = ps.length) : (mixX Ks ps).length = Ks.length := by
+  simp [mixX, hlen]
+
+lemma mixX_getElem (Ks ps : List ℝ) (i : ℕ) (h : i < (mixX Ks ps).length) (h1 : i < Ks.length)
+    (h2 : i < ps.length) : (mixX Ks ps)[i] = Ks[i] * ps[i] / mixS Ks ps := by
+  simp [mixX]
+
+lemma mixX_sum (Ks ps : List ℝ) (hS : mixS Ks ps ≠ 0) : (mixX Ks ps).sum = 1 := by
+  rw [mixX_eq_map]
+  simp only [div_eq_mul_inv]
+  rw [List.sum_map_mul_right, List.map_id']
+  exact mul_inv_cancel₀ hS
+
+lemma mixX_mem (Ks ps : List ℝ) (hlen : Ks.length = ps.length) (hne : Ks ≠ [])
+    (hK : ∀ K ∈ Ks, 0 < K) (hp : ∀ p ∈ ps, 0 < p) : ∀ v ∈ mixX Ks ps, 0 < v ∧ v ≤ 1 := by
+  have hS := mixS_pos Ks ps hlen hne hK hp
+  intro v hv
+  rw [mixX_eq_map, List.mem_map] at hv
+  obtain ⟨w, hw, rfl⟩ := hv
+  have hw0 := zipWith_mul_pos Ks ps hK hp w hw
+  have hwS : w ≤ mixS Ks ps :=
+    List.single_le_sum (fun y hy => (zipWith_mul_pos Ks ps hK hp y hy).le) w hw
+  exact ⟨div_pos hw0 hS, (div_le_one hS).mpr hwS⟩
+
+/-- if every pure-component loading at the fictitious pressure is the same number `N`, the mixture loadings are
+`x_i N` -/
+lemma loadings_of_const (x n0 : List ℝ) (N : ℝ) (hx : x.sum = 1) (hlen : n0.length = x.length)
+    (h : ∀ i (hi : i < n0.length), n0[i] = N) : loadings x n0 = x.map (· * N) := by
+  have e : List.zipWith (· / ·) x n0 = x.map (· / N) := by
+    apply List.ext_getElem
+    · simp [hlen]
+    · intro i h1 h2
+      simp only [List.length_zipWith, lt_min_iff] at h1
+      simp [h i h1.2]
+  have hinv : inverseLoading x n0 = 1 / N := by
+    unfold inverseLoading
+    rw [e]
+    simp only [div_eq_mul_inv]
+    rw [List.sum_map_mul_right, List.map_id', hx]
+  unfold loadings totalLoading
+  rw [hinv, one_div_one_div]
+
+/-- the fictitious pressure of component `i` in the closed form, times `K_i`, is `S` -/
+lemma K_mul_fict (K p S : ℝ) (hK : 0 < K) (hp : 0 < p) (hS : 0 < S) : K * (p / (K * p / S)) = S := by
+  field_simp
+
+lemma henry_sp_eq (K q : ℝ) : Henry_spreading_pressure K q = K * q := rfl
+lemma henry_loading_eq (K q : ℝ) : Henry_loading K q = K * q := rfl
+lemma langmuir_sp_eq (K nm q : ℝ) : Langmuir_spreading_pressure K nm q = nm * Real.log (1 + K * q) := rfl
+lemma langmuir_loading_eq (K nm q : ℝ) : Langmuir_loading K nm q = nm * (K * q) / (1 + K * q) := rfl
+
+end helpersB
+
+/-- Binary Henry mixture: `x_i = K_i p_i / (K₁ p₁ + K₂ p₂)` are valid fractions, give both components the
+spreading pressure `K₁ p₁ + K₂ p₂`, and the IAST loadings are `n_i = K_i p_i`. -/
+theorem henry_binary (K1 K2 p1 p2 : ℝ) (hK1 : 0 < K1) (hK2 : 0 < K2) (hp1 : 0 < p1) (hp2 : 0 < p2) :
+    let S := K1 * p1 + K2 * p2
+    let x1 := K1 * p1 / S
+    let x2 := K2 * p2 / S
+    x1 + x2 = 1 ∧ (0 < x1 ∧ x1 < 1) ∧ (0 < x2 ∧ x2 < 1) ∧
+    Henry_spreading_pressure K1 (p1 / x1) = S ∧ Henry_spreading_pressure K2 (p2 / x2) = S ∧
+    loadings [x1, x2] [Henry_loading K1 (p1 / x1), Henry_loading K2 (p2 / x2)] = [K1 * p1, K2 * p2] := by
+  intro S x1 x2
+  have h1 : 0 < K1 * p1 := mul_pos hK1 hp1
+  have h2 : 0 < K2 * p2 := mul_pos hK2 hp2
+  have hS : 0 < S := add_pos h1 h2
+  have hsum : x1 + x2 = 1 := by simp only [x1, x2]; field_simp; rfl
+  have e1 : K1 * (p1 / x1) = S := K_mul_fict K1 p1 S hK1 hp1 hS
+  have e2 : K2 * (p2 / x2) = S := K_mul_fict K2 p2 S hK2 hp2 hS
+  refine ⟨hsum, ⟨div_pos h1 hS, ?_⟩, ⟨div_pos h2 hS, ?_⟩, e1, e2, ?_⟩
+  · rw [div_lt_one hS]; simp only [S]; linarith
+  · rw [div_lt_one hS]; simp only [S]; linarith
+  · rw [loadings_of_const [x1, x2] _ S (by simpa using hsum) (by simp)]
+    · simp only [List.map_cons, List.map_nil, x1, x2]
+      rw [div_mul_cancel₀ _ hS.ne', div_mul_cancel₀ _ hS.ne']
+    · intro i hi
+      simp only [List.length_cons, List.length_nil] at hi
+      interval_cases i <;> simp [henry_loading_eq, e1, e2]
+
+/-- Henry mixture with any number of components (`Ks`, `ps` of the same positive length, all positive):
+(a) the closed-form fractions sum to one and lie in `(0, 1]`; (b) every component has spreading pressure `S` at its
+fictitious pressure `p_i / x_i`; (c) the IAST loadings computed from these fractions are `n_i = K_i p_i`. -/
+theorem henry_closed_form_solves (Ks ps : List ℝ) (hlen : Ks.length = ps.length) (hne : Ks ≠ [])
+    (hK : ∀ K ∈ Ks, 0 < K) (hp : ∀ p ∈ ps, 0 < p) :
+    (mixX Ks ps).length = Ks.length ∧ (mixX Ks ps).sum = 1 ∧ (∀ v ∈ mixX Ks ps, 0 < v ∧ v ≤ 1) ∧
+    (∀ i (h1 : i < Ks.length) (h2 : i < (fictitious ps (mixX Ks ps)).length),
+      Henry_spreading_pressure Ks[i] (fictitious ps (mixX Ks ps))[i] = mixS Ks ps) ∧
+    loadings (mixX Ks ps) (List.zipWith Henry_loading Ks (fictitious ps (mixX Ks ps)))
+      = List.zipWith (· * ·) Ks ps := by
+  have hS := mixS_pos Ks ps hlen hne hK hp
+  have hxl := mixX_length Ks ps hlen
+  have key : ∀ i (h1 : i < Ks.length) (h2 : i < (fictitious ps (mixX Ks ps)).length),
+      Ks[i] * (fictitious ps (mixX Ks ps))[i] = mixS Ks ps := by
+    intro i h1 h2
+    have h3 : i < ps.length := hlen ▸ h1
+    simp only [fictitious, List.getElem_zipWith, mixX_getElem Ks ps i (hxl ▸ h1) h1 h3]
+    exact K_mul_fict _ _ _ (hK _ (List.getElem_mem h1)) (hp _ (List.getElem_mem h3)) hS
+  refine ⟨hxl, mixX_sum Ks ps hS.ne', mixX_mem Ks ps hlen hne hK hp, key, ?_⟩
+  rw [loadings_of_const (mixX Ks ps) _ (mixS Ks ps) (mixX_sum Ks ps hS.ne')]
+  · rw [mixX_eq_map, List.map_map]
+    conv_rhs => rw [← List.map_id (List.zipWith (· * ·) Ks ps)]
+    apply List.map_congr_left
+    intro a _
+    simp only [Function.comp_apply, id]
+    exact div_mul_cancel₀ _ hS.ne'
+  · simp [fictitious, hxl, hlen]
+  · intro i hi
+    simp only [List.length_zipWith, lt_min_iff] at hi
+    rw [List.getElem_zipWith, henry_loading_eq]
+    exact key i hi.1 (by simpa [fictitious] using hi.2)
+
+/-- Binary Langmuir mixture with equal capacities `n_m`: the same fractions solve the IAST equations, the common
+spreading pressure is `n_m log (1 + K₁ p₁ + K₂ p₂)` and the IAST loadings are the extended-Langmuir loadings. -/
+theorem langmuir_equal_capacity_binary (nm K1 K2 p1 p2 : ℝ) (hnm : 0 < nm) (hK1 : 0 < K1) (hK2 : 0 < K2)
+    (hp1 : 0 < p1) (hp2 : 0 < p2) :
+    let S := K1 * p1 + K2 * p2
+    let x1 := K1 * p1 / S
+    let x2 := K2 * p2 / S
+    x1 + x2 = 1 ∧ (0 < x1 ∧ x1 < 1) ∧ (0 < x2 ∧ x2 < 1) ∧
+    Langmuir_spreading_pressure K1 nm (p1 / x1) = nm * Real.log (1 + S) ∧
+    Langmuir_spreading_pressure K2 nm (p2 / x2) = nm * Real.log (1 + S) ∧
+    loadings [x1, x2] [Langmuir_loading K1 nm (p1 / x1), Langmuir_loading K2 nm (p2 / x2)]
+      = [nm * K1 * p1 / (1 + S), nm * K2 * p2 / (1 + S)] := by
+  intro S x1 x2
+  have h1 : 0 < K1 * p1 := mul_pos hK1 hp1
+  have h2 : 0 < K2 * p2 := mul_pos hK2 hp2
+  have hS : 0 < S := add_pos h1 h2
+  have hS1 : 0 < 1 + S := by linarith
+  have hsum : x1 + x2 = 1 := by simp only [x1, x2]; field_simp; rfl
+  have e1 : K1 * (p1 / x1) = S := K_mul_fict K1 p1 S hK1 hp1 hS
+  have e2 : K2 * (p2 / x2) = S := K_mul_fict K2 p2 S hK2 hp2 hS
+  refine ⟨hsum, ⟨div_pos h1 hS, ?_⟩, ⟨div_pos h2 hS, ?_⟩, ?_, ?_, ?_⟩
+  · rw [div_lt_one hS]; simp only [S]; linarith
+  · rw [div_lt_one hS]; simp only [S]; linarith
+  · rw [langmuir_sp_eq, e1]
+  · rw [langmuir_sp_eq, e2]
+  · rw [loadings_of_const [x1, x2] _ (nm * S / (1 + S)) (by simpa using hsum) (by simp)]
+    · simp only [List.map_cons, List.map_nil, x1, x2]
+      congr 1
+      · field_simp
+      · congr 1; field_simp
+    · intro i hi
+      simp only [List.length_cons, List.length_nil] at hi
+      interval_cases i <;> simp [langmuir_loading_eq, e1, e2]
+
+/-- Equal-capacity Langmuir mixture with any number of components: (a) the closed-form fractions `K_i p_i / S` are
+valid; (b) every component has spreading pressure `n_m log (1 + S)` at its fictitious pressure; (c) the IAST loadings
+computed from these fractions are the extended-Langmuir loadings `n_m K_i p_i / (1 + S)`. -/
+theorem langmuir_equal_capacity_closed_form_solves (nm : ℝ) (Ks ps : List ℝ) (hnm : 0 < nm)
+    (hlen : Ks.length = ps.length) (hne : Ks ≠ []) (hK : ∀ K ∈ Ks, 0 < K) (hp : ∀ p ∈ ps, 0 < p) :
+    (mixX Ks ps).length = Ks.length ∧ (mixX Ks ps).sum = 1 ∧ (∀ v ∈ mixX Ks ps, 0 < v ∧ v ≤ 1) ∧
+    (∀ i (h1 : i < Ks.length) (h2 : i < (fictitious ps (mixX Ks ps)).length),
+      Langmuir_spreading_pressure Ks[i] nm (fictitious ps (mixX Ks ps))[i] = nm * Real.log (1 + mixS Ks ps)) ∧
+    loadings (mixX Ks ps) (List.zipWith (fun K q => Langmuir_loading K nm q) Ks (fictitious ps (mixX Ks ps)))
+      = List.zipWith (fun K p => nm * K * p / (1 + mixS Ks ps)) Ks ps := by
+  have hS := mixS_pos Ks ps hlen hne hK hp
+  have hS1 : 0 < 1 + mixS Ks ps := by linarith
+  have hxl := mixX_length Ks ps hlen
+  have key : ∀ i (h1 : i < Ks.length) (h2 : i < (fictitious ps (mixX Ks ps)).length),
+      Ks[i] * (fictitious ps (mixX Ks ps))[i] = mixS Ks ps := by
+    intro i h1 h2
+    have h3 : i < ps.length := hlen ▸ h1
+    simp only [fictitious, List.getElem_zipWith, mixX_getElem Ks ps i (hxl ▸ h1) h1 h3]
+    exact K_mul_fict _ _ _ (hK _ (List.getElem_mem h1)) (hp _ (List.getElem_mem h3)) hS
+  refine ⟨hxl, mixX_sum Ks ps hS.ne', mixX_mem Ks ps hlen hne hK hp, ?_, ?_⟩
+  · intro i h1 h2
+    rw [langmuir_sp_eq, key i h1 h2]
+  rw [loadings_of_const (mixX Ks ps) _ (nm * mixS Ks ps / (1 + mixS Ks ps)) (mixX_sum Ks ps hS.ne')]
+  · unfold mixX
+    rw [List.map_zipWith]
+    apply List.ext_getElem
+    · simp
+    · intro i h1 h2
+      simp only [List.getElem_zipWith]
+      field_simp
+  · simp [fictitious, hxl, hlen]
+  · intro i hi
+    simp only [List.length_zipWith, lt_min_iff] at hi
+    rw [List.getElem_zipWith, langmuir_loading_eq]
+    rw [key i hi.1 (by simpa [fictitious] using hi.2)]
+
+/-! ## C. uniqueness, permutation, forward / reverse -/
+
+/-- The IAST equations for components with spreading pressures `πs` and partial pressures `ps`: the adsorbed
+fractions `xs` are positive, sum to one, and every component has the same spreading pressure `c` at its fictitious
+pressure `p_i / x_i` (`fictitious` is the model of `pressure0` in `iast_point`). -/
+def Solves (πs : List (ℝ → ℝ)) (ps xs : List ℝ) (c : ℝ) : Prop :=
+  πs.length = ps.length ∧ xs.length = ps.length ∧ xs.sum = 1 ∧ (∀ x ∈ xs, 0 < x) ∧
+  ∀ i (h1 : i < πs.length) (h2 : i < (fictitious ps xs).length), πs[i] (fictitious ps xs)[i] = c
+
+/-- The equations of `reverse_iast`: adsorbed fractions `xs` given, gas fractions `ys` positive, summing to one, and
+every component has the same spreading pressure `c` at `P y_i / x_i`. -/
+def SolvesReverse (πs : List (ℝ → ℝ)) (P : ℝ) (xs ys : List ℝ) (c : ℝ) : Prop :=
+  πs.length = xs.length ∧ ys.length = xs.length ∧ ys.sum = 1 ∧ (∀ y ∈ ys, 0 < y) ∧
+  ∀ i (h1 : i < πs.length) (h2 : i < (fictitiousReverse P ys xs).length), πs[i] (fictitiousReverse P ys xs)[i] = c
+
+section helpersC
+
+lemma sum_lt_sum_getElem : ∀ (l l' : List ℝ), l.length = l'.length → l ≠ [] →
+    (∀ i (h : i < l.length) (h' : i < l'.length), l[i] < l'[i]) → l.sum < l'.sum
+  | [], _, _, hne, _ => absurd rfl hne
+  | _ :: _, [], hlen, _, _ => by simp at hlen
+  | a :: l, b :: l', hlen, _, h => by
+    have hab : a < b := h 0 (by simp) (by simp)
+    have hlen' : l.length = l'.length := by simpa using hlen
+    have htail : ∀ i (h1 : i < l.length) (h2 : i < l'.length), l[i] < l'[i] := fun i h1 h2 => by
+      have := h (i + 1) (by simpa using h1) (by simpa using h2)
+      simp only [List.getElem_cons_succ] at this
+      exact this
+    rw [List.sum_cons, List.sum_cons]
+    by_cases hl : l = []
+    · subst hl
+      have hl' : l' = [] := List.length_eq_zero_iff.mp hlen'.symm
+      subst hl'
+      simpa using hab
+    · exact add_lt_add hab (sum_lt_sum_getElem l l' hlen' hl htail)
+
+/-- two lists with the same sum that are comparable componentwise in the same direction are equal -/
+lemma eq_of_sum_eq_of_trichotomy (l l' : List ℝ) (hlen : l.length = l'.length) (hne : l ≠ [])
+    (hsum : l.sum = l'.sum)
+    (h : (∀ i (h : i < l.length) (h' : i < l'.length), l[i] < l'[i]) ∨
+         (∀ i (h : i < l.length) (h' : i < l'.length), l'[i] < l[i]) ∨
+         (∀ i (h : i < l.length) (h' : i < l'.length), l[i] = l'[i])) : l = l' := by
+  rcases h with h | h | h
+  · exact absurd hsum (sum_lt_sum_getElem l l' hlen hne h).ne
+  · have hne' : l' ≠ [] := fun h0 => hne (List.length_eq_zero_iff.mp (by rw [hlen, h0]; rfl))
+    exact absurd hsum.symm (sum_lt_sum_getElem l' l hlen.symm hne' (fun i h1 h2 => h i h2 h1)).ne
+  · exact List.ext_getElem hlen h
+
+lemma ne_nil_of_sum_eq_one (l : List ℝ) (h : l.sum = 1) : l ≠ [] := by
+  rintro rfl; simp at h
+
+/-- pointwise form of the forward equations -/
+lemma Solves.point {πs : List (ℝ → ℝ)} {ps xs : List ℝ} {c : ℝ} (h : Solves πs ps xs c) (i : ℕ)
+    (h1 : i < πs.length) (h2 : i < ps.length) (h3 : i < xs.length) : πs[i] (ps[i] / xs[i]) = c := by
+  have := h.2.2.2.2 i h1 (by simp [fictitious, h2, h3])
+  simpa [fictitious] using this
+
+/-- pointwise form of the reverse equations -/
+lemma SolvesReverse.point {πs : List (ℝ → ℝ)} {P : ℝ} {xs ys : List ℝ} {c : ℝ} (h : SolvesReverse πs P xs ys c)
+    (i : ℕ) (h1 : i < πs.length) (h2 : i < ys.length) (h3 : i < xs.length) :
+    πs[i] (P * ys[i] / xs[i]) = c := by
+  have := h.2.2.2.2 i h1 (by simp [fictitiousReverse, h2, h3])
+  simpa [fictitiousReverse] using this
+
+end helpersC
+
+/-- Binary mixture: with strictly increasing spreading pressures the residual of the solver,
+`g x = π₁ (p₁ / x) − π₂ (p₂ / (1 − x))`, is strictly decreasing on `(0, 1)`. -/
+theorem binary_residual_strictAntiOn (π₁ π₂ : ℝ → ℝ) (h₁ : StrictMonoOn π₁ (Set.Ioi 0))
+    (h₂ : StrictMonoOn π₂ (Set.Ioi 0)) (p₁ p₂ : ℝ) (hp₁ : 0 < p₁) (hp₂ : 0 < p₂) :
+    StrictAntiOn (fun x => π₁ (p₁ / x) - π₂ (p₂ / (1 - x))) (Set.Ioo 0 1) := by
+  intro a ha b hb hab
+  simp only [Set.mem_Ioo] at ha hb
+  have ha1 : 0 < 1 - a := by linarith
+  have hb1 : 0 < 1 - b := by linarith
+  have e1 : π₁ (p₁ / b) < π₁ (p₁ / a) :=
+    h₁ (div_pos hp₁ hb.1) (div_pos hp₁ ha.1) ((div_lt_div_iff_of_pos_left hp₁ hb.1 ha.1).mpr hab)
+  have e2 : π₂ (p₂ / (1 - a)) < π₂ (p₂ / (1 - b)) :=
+    h₂ (div_pos hp₂ ha1) (div_pos hp₂ hb1) ((div_lt_div_iff_of_pos_left hp₂ ha1 hb1).mpr (by linarith))
+  simp only
+  linarith
+
+/-- Binary mixture: at most one `x ∈ (0, 1)` equalises the two spreading pressures. -/
+theorem binary_solution_unique (π₁ π₂ : ℝ → ℝ) (h₁ : StrictMonoOn π₁ (Set.Ioi 0))
+    (h₂ : StrictMonoOn π₂ (Set.Ioi 0)) (p₁ p₂ : ℝ) (hp₁ : 0 < p₁) (hp₂ : 0 < p₂)
+    (x x' : ℝ) (hx : x ∈ Set.Ioo (0 : ℝ) 1) (hx' : x' ∈ Set.Ioo (0 : ℝ) 1)
+    (e : π₁ (p₁ / x) = π₂ (p₂ / (1 - x))) (e' : π₁ (p₁ / x') = π₂ (p₂ / (1 - x'))) : x = x' := by
+  apply (binary_residual_strictAntiOn π₁ π₂ h₁ h₂ p₁ p₂ hp₁ hp₂).injOn hx hx'
+  simp only
+  rw [e, e', sub_self, sub_self]
+
+/-- n components: the IAST equations have at most one solution (and the common spreading pressure is determined). -/
+theorem solution_unique (πs : List (ℝ → ℝ)) (ps xs xs' : List ℝ) (c c' : ℝ)
+    (hπ : ∀ π ∈ πs, StrictMonoOn π (Set.Ioi 0)) (hp : ∀ p ∈ ps, 0 < p)
+    (h : Solves πs ps xs c) (h' : Solves πs ps xs' c') : xs = xs' ∧ c = c' := by
+  obtain ⟨hl1, hl2, hs, hpos, -⟩ := id h
+  obtain ⟨-, hl2', hs', hpos', -⟩ := id h'
+  have hne := ne_nil_of_sum_eq_one xs hs
+  have hlen : xs.length = xs'.length := hl2.trans hl2'.symm
+  -- pointwise comparison
+  have cmp : ∀ i (h3 : i < xs.length) (h3' : i < xs'.length),
+      (c < c' ↔ xs'[i] < xs[i]) ∧ (c = c' → xs[i] = xs'[i]) := by
+    intro i h3 h3'
+    have h2 : i < ps.length := hl2 ▸ h3
+    have h1 : i < πs.length := hl1 ▸ h2
+    have hm := hπ _ (List.getElem_mem h1)
+    have hpi := hp _ (List.getElem_mem h2)
+    have hxi := hpos _ (List.getElem_mem h3)
+    have hxi' := hpos' _ (List.getElem_mem h3')
+    have e := h.point i h1 h2 h3
+    have e' := h'.point i h1 h2 h3'
+    have m : ps[i] / xs[i] ∈ Set.Ioi (0 : ℝ) := div_pos hpi hxi
+    have m' : ps[i] / xs'[i] ∈ Set.Ioi (0 : ℝ) := div_pos hpi hxi'
+    constructor
+    · rw [← e, ← e', hm.lt_iff_lt m m', div_lt_div_iff_of_pos_left hpi hxi hxi']
+    · intro hcc
+      have : ps[i] / xs[i] = ps[i] / xs'[i] := hm.injOn m m' (by rw [e, e', hcc])
+      field_simp at this
+      linarith
+  have hxs : xs = xs' := by
+    apply eq_of_sum_eq_of_trichotomy xs xs' hlen hne (hs.trans hs'.symm)
+    rcases lt_trichotomy c c' with hc | hc | hc
+    · exact Or.inr (Or.inl fun i h3 h3' => ((cmp i h3 h3').1).mp hc)
+    · exact Or.inr (Or.inr fun i h3 h3' => (cmp i h3 h3').2 hc)
+    · left
+      intro i h3 h3'
+      have h2 : i < ps.length := hl2 ▸ h3
+      have h1 : i < πs.length := hl1 ▸ h2
+      have hm := hπ _ (List.getElem_mem h1)
+      have hpi := hp _ (List.getElem_mem h2)
+      have hxi := hpos _ (List.getElem_mem h3)
+      have hxi' := hpos' _ (List.getElem_mem h3')
+      have e := h.point i h1 h2 h3
+      have e' := h'.point i h1 h2 h3'
+      have m : ps[i] / xs[i] ∈ Set.Ioi (0 : ℝ) := div_pos hpi hxi
+      have m' : ps[i] / xs'[i] ∈ Set.Ioi (0 : ℝ) := div_pos hpi hxi'
+      rw [← e, ← e', hm.lt_iff_lt m' m, div_lt_div_iff_of_pos_left hpi hxi' hxi] at hc
+      exact hc
+  refine ⟨hxs, ?_⟩
+  subst hxs
+  have h3 : 0 < xs.length := List.length_pos_iff.mpr hne
+  have h2 : 0 < ps.length := hl2 ▸ h3
+  have h1 : 0 < πs.length := hl1 ▸ h2
+  rw [← h.point 0 h1 h2 h3, ← h'.point 0 h1 h2 h3]
+
+/-- a solution of the IAST equations passes the range check of `iast_point` (all fractions in `[0, 1]`) -/
+theorem Solves.fractionsValid {πs : List (ℝ → ℝ)} {ps xs : List ℝ} {c : ℝ} (h : Solves πs ps xs c) :
+    fractionsValid xs = true := by
+  rw [fractionsValid_iff]
+  intro v hv
+  refine ⟨(h.2.2.2.1 v hv).le, ?_⟩
+  rw [← h.2.2.1]
+  exact List.single_le_sum (fun y hy => (h.2.2.2.1 y hy).le) v hv
+
+/-! ### permutation of the components -/
+
+/-- binary mixture: swapping the two components swaps the two fractions -/
+theorem binary_swap (π₁ π₂ : ℝ → ℝ) (p₁ p₂ x₁ x₂ c : ℝ) :
+    Solves [π₁, π₂] [p₁, p₂] [x₁, x₂] c ↔ Solves [π₂, π₁] [p₂, p₁] [x₂, x₁] c := by
+  have aux : ∀ (π₁ π₂ : ℝ → ℝ) (p₁ p₂ x₁ x₂ : ℝ),
+      Solves [π₁, π₂] [p₁, p₂] [x₁, x₂] c → Solves [π₂, π₁] [p₂, p₁] [x₂, x₁] c := by
+    intro π₁ π₂ p₁ p₂ x₁ x₂ h
+    have e0 := h.point 0 (by simp) (by simp) (by simp)
+    have e1 := h.point 1 (by simp) (by simp) (by simp)
+    obtain ⟨-, -, hs, hpos, -⟩ := h
+    refine ⟨rfl, rfl, ?_, ?_, ?_⟩
+    · simp only [List.sum_cons, List.sum_nil] at hs ⊢; linarith
+    · intro x hx
+      apply hpos
+      simp only [List.mem_cons, List.not_mem_nil, or_false] at hx ⊢
+      tauto
+    · intro i h1 h2
+      simp only [List.length_cons, List.length_nil] at h1
+      interval_cases i
+      · simpa [fictitious] using e1
+      · simpa [fictitious] using e0
+  exact ⟨aux _ _ _ _ _ _, aux _ _ _ _ _ _⟩
+
+/-- a mixture given as a list of components `(π_i, p_i, x_i)`: the IAST equations in membership form -/
+lemma solves_triples_iff (l : List ((ℝ → ℝ) × ℝ × ℝ)) (c : ℝ) :
+    Solves (l.map (·.1)) (l.map (·.2.1)) (l.map (·.2.2)) c ↔
+      (l.map (·.2.2)).sum = 1 ∧ ∀ t ∈ l, 0 < t.2.2 ∧ t.1 (t.2.1 / t.2.2) = c := by
+  constructor
+  · intro h
+    refine ⟨h.2.2.1, fun t ht => ?_⟩
+    obtain ⟨i, hi, rfl⟩ := List.getElem_of_mem ht
+    refine ⟨h.2.2.2.1 _ (List.mem_map_of_mem (List.getElem_mem hi)), ?_⟩
+    have := h.point i (by simpa using hi) (by simpa using hi) (by simpa using hi)
+    simpa using this
+  · rintro ⟨hs, hall⟩
+    refine ⟨by simp, by simp, hs, ?_, ?_⟩
+    · intro x hx
+      obtain ⟨t, ht, rfl⟩ := List.mem_map.mp hx
+      exact (hall t ht).1
+    · intro i h1 h2
+      have hi : i < l.length := by simpa using h1
+      have := (hall _ (List.getElem_mem hi)).2
+      simpa [fictitious] using this
+
+/-- The IAST equations are symmetric under permutation of the components: a mixture given as a list of
+components `(π_i, p_i, x_i)` solves the equations iff any reordering of that list does. -/
+theorem permutation_equivariant (l l' : List ((ℝ → ℝ) × ℝ × ℝ)) (hperm : l.Perm l') (c : ℝ) :
+    Solves (l.map (·.1)) (l.map (·.2.1)) (l.map (·.2.2)) c ↔
+      Solves (l'.map (·.1)) (l'.map (·.2.1)) (l'.map (·.2.2)) c := by
+  rw [solves_triples_iff, solves_triples_iff, (hperm.map _).sum_eq]
+  constructor
+  · rintro ⟨a, b⟩; exact ⟨a, fun t ht => b t (hperm.mem_iff.mpr ht)⟩
+  · rintro ⟨a, b⟩; exact ⟨a, fun t ht => b t (hperm.mem_iff.mp ht)⟩
+
+/-- With uniqueness: the result for reordered data is the reordered result.  If `l` (components with their
+fractions) solves the equations and `xs'` is any solution for the data of the reordering `l'`, then `xs'` is the
+list of fractions of `l'`, and the common spreading pressure is the same. -/
+theorem permutation_result (l l' : List ((ℝ → ℝ) × ℝ × ℝ)) (hperm : l.Perm l') (c c' : ℝ) (xs' : List ℝ)
+    (hπ : ∀ t ∈ l, StrictMonoOn t.1 (Set.Ioi 0)) (hp : ∀ t ∈ l, 0 < t.2.1)
+    (h : Solves (l.map (·.1)) (l.map (·.2.1)) (l.map (·.2.2)) c)
+    (h' : Solves (l'.map (·.1)) (l'.map (·.2.1)) xs' c') :
+    xs' = l'.map (·.2.2) ∧ c' = c := by
+  have h2 := (permutation_equivariant l l' hperm c).mp h
+  apply solution_unique (l'.map (·.1)) (l'.map (·.2.1)) xs' (l'.map (·.2.2)) c' c _ _ h' h2
+  · intro π hm
+    obtain ⟨t, ht, rfl⟩ := List.mem_map.mp hm
+    exact hπ t (hperm.mem_iff.mpr ht)
+  · intro p hm
+    obtain ⟨t, ht, rfl⟩ := List.mem_map.mp hm
+    exact hp t (hperm.mem_iff.mpr ht)
+
+/-! ### forward and reverse IAST -/
+
+/-- `reverse_iast` and `iast_point` solve the same equations: for valid adsorbed fractions `xs` and gas fractions
+`ys`, `ys` solves the reverse problem for `xs` at total pressure `P` iff `xs` solves the forward problem for the
+partial pressures `P y_i`. -/
+theorem forward_reverse_inverse (πs : List (ℝ → ℝ)) (P : ℝ) (xs ys : List ℝ) (c : ℝ)
+    (hx : xs.sum = 1) (hxpos : ∀ x ∈ xs, 0 < x) (hy : ys.sum = 1) (hypos : ∀ y ∈ ys, 0 < y) :
+    SolvesReverse πs P xs ys c ↔ Solves πs (partialPressures ys P) xs c := by
+  unfold SolvesReverse Solves
+  rw [partialPressures_fictitious, partialPressures_length]
+  constructor
+  · rintro ⟨a, b, -, -, e⟩; exact ⟨a.trans b.symm, b.symm, hx, hxpos, e⟩
+  · rintro ⟨a, b, -, -, e⟩; exact ⟨a.trans b.symm, b.symm, hy, hypos, e⟩
+
+/-- the reverse problem has at most one solution -/
+theorem reverse_solution_unique (πs : List (ℝ → ℝ)) (P : ℝ) (xs ys ys' : List ℝ) (c c' : ℝ) (hP : 0 < P)
+    (hπ : ∀ π ∈ πs, StrictMonoOn π (Set.Ioi 0)) (hxpos : ∀ x ∈ xs, 0 < x)
+    (h : SolvesReverse πs P xs ys c) (h' : SolvesReverse πs P xs ys' c') : ys = ys' ∧ c = c' := by
+  obtain ⟨hl1, hl2, hs, hpos, -⟩ := id h
+  obtain ⟨-, hl2', hs', hpos', -⟩ := id h'
+  have hne := ne_nil_of_sum_eq_one ys hs
+  have hlen : ys.length = ys'.length := hl2.trans hl2'.symm
+  have cmp : ∀ i (h3 : i < ys.length) (h3' : i < ys'.length),
+      (c < c' ↔ ys[i] < ys'[i]) ∧ (c' < c ↔ ys'[i] < ys[i]) ∧ (c = c' → ys[i] = ys'[i]) := by
+    intro i h3 h3'
+    have h2 : i < xs.length := hl2 ▸ h3
+    have h1 : i < πs.length := hl1 ▸ h2
+    have hm := hπ _ (List.getElem_mem h1)
+    have hxi := hxpos _ (List.getElem_mem h2)
+    have hyi := hpos _ (List.getElem_mem h3)
+    have hyi' := hpos' _ (List.getElem_mem h3')
+    have e := h.point i h1 h3 h2
+    have e' := h'.point i h1 h3' h2
+    have m : P * ys[i] / xs[i] ∈ Set.Ioi (0 : ℝ) := div_pos (mul_pos hP hyi) hxi
+    have m' : P * ys'[i] / xs[i] ∈ Set.Ioi (0 : ℝ) := div_pos (mul_pos hP hyi') hxi
+    have key : ∀ a b : ℝ, P * a / xs[i] < P * b / xs[i] ↔ a < b := fun a b => by
+      rw [div_lt_div_iff_of_pos_right hxi]
+      exact ⟨fun hh => lt_of_mul_lt_mul_left hh hP.le, fun hh => mul_lt_mul_of_pos_left hh hP⟩
+    refine ⟨?_, ?_, ?_⟩
+    · rw [← e, ← e', hm.lt_iff_lt m m', key]
+    · rw [← e, ← e', hm.lt_iff_lt m' m, key]
+    · intro hcc
+      have : P * ys[i] / xs[i] = P * ys'[i] / xs[i] := hm.injOn m m' (by rw [e, e', hcc])
+      rcases lt_trichotomy ys[i] ys'[i] with hlt | heq | hgt
+      · exact absurd this ((key _ _).mpr hlt).ne
+      · exact heq
+      · exact absurd this ((key _ _).mpr hgt).ne'
+  have hys : ys = ys' := by
+    apply eq_of_sum_eq_of_trichotomy ys ys' hlen hne (hs.trans hs'.symm)
+    rcases lt_trichotomy c c' with hc | hc | hc
+    · exact Or.inl fun i h3 h3' => ((cmp i h3 h3').1).mp hc
+    · exact Or.inr (Or.inr fun i h3 h3' => (cmp i h3 h3').2.2 hc)
+    · exact Or.inr (Or.inl fun i h3 h3' => ((cmp i h3 h3').2.1).mp hc)
+  refine ⟨hys, ?_⟩
+  subst hys
+  have h3 : 0 < ys.length := List.length_pos_iff.mpr hne
+  have h2 : 0 < xs.length := hl2 ▸ h3
+  have h1 : 0 < πs.length := hl1 ▸ h2
+  rw [← h.point 0 h1 h3 h2, ← h'.point 0 h1 h3 h2]
+
+/-- reverse then forward: if `reverse_iast` finds gas fractions `ys` for the wanted adsorbed fractions `xs`, any
+result of the forward calculation at the partial pressures `P y_i` is `xs` again. -/
+theorem reverse_then_forward (πs : List (ℝ → ℝ)) (P : ℝ) (xs ys xs' : List ℝ) (c c' : ℝ) (hP : 0 < P)
+    (hπ : ∀ π ∈ πs, StrictMonoOn π (Set.Ioi 0)) (hx : xs.sum = 1) (hxpos : ∀ x ∈ xs, 0 < x)
+    (hr : SolvesReverse πs P xs ys c) (hf : Solves πs (partialPressures ys P) xs' c') :
+    xs' = xs ∧ c' = c := by
+  have hf0 := (forward_reverse_inverse πs P xs ys c hx hxpos hr.2.2.1 hr.2.2.2.1).mp hr
+  apply solution_unique πs (partialPressures ys P) xs' xs c' c hπ _ hf hf0
+  intro p hm
+  obtain ⟨y, hy, rfl⟩ := List.mem_map.mp hm
+  exact mul_pos hP (hr.2.2.2.1 y hy)
+
+/-- forward then reverse: if `iast_point` finds adsorbed fractions `xs` at the partial pressures `P y_i`
+(`ys` valid gas fractions), any result of `reverse_iast` for `xs` at total pressure `P` is `ys` again. -/
+theorem forward_then_reverse (πs : List (ℝ → ℝ)) (P : ℝ) (xs ys ys' : List ℝ) (c c' : ℝ) (hP : 0 < P)
+    (hπ : ∀ π ∈ πs, StrictMonoOn π (Set.Ioi 0)) (hy : ys.sum = 1) (hypos : ∀ y ∈ ys, 0 < y)
+    (hf : Solves πs (partialPressures ys P) xs c) (hr : SolvesReverse πs P xs ys' c') :
+    ys' = ys ∧ c' = c := by
+  have hr0 := (forward_reverse_inverse πs P xs ys c hf.2.2.1 hf.2.2.2.1 hy hypos).mpr hf
+  exact reverse_solution_unique πs P xs ys' ys c' c hP hπ hf.2.2.2.1 hr hr0
+
+/-! ### instances: the library's own spreading pressures
+
+The generated spreading pressures are strictly increasing on `(0, ∞)` for positive parameters (Props/C11), so the
+uniqueness, permutation and inversion theorems above apply to mixtures of these models.  (BET and GAB are strictly
+increasing only below their pole, `TemkinApprox` only for `θ < 4` — `PgVerif.C11.temkin_spread_strictMonoOn_false`
+shows that it is not monotone for `θ = 8`, so uniqueness of the IAST solution is not guaranteed there.) -/
+
+theorem henry_spreading_strictMonoOn (K : ℝ) (hK : 0 < K) :
+    StrictMonoOn (Henry_spreading_pressure K) (Set.Ioi 0) :=
+  (PgVerif.C11.henry_spread_strictMonoOn K hK).mono Set.Ioi_subset_Ici_self
+
+theorem langmuir_spreading_strictMonoOn (K nm : ℝ) (hK : 0 < K) (hnm : 0 < nm) :
+    StrictMonoOn (Langmuir_spreading_pressure K nm) (Set.Ioi 0) :=
+  (PgVerif.C11.langmuir_spread_strictMonoOn K nm hK hnm).mono Set.Ioi_subset_Ici_self
+
+theorem dslangmuir_spreading_strictMonoOn (nm1 K1 nm2 K2 : ℝ) (hnm1 : 0 < nm1) (hK1 : 0 < K1) (hnm2 : 0 < nm2)
+    (hK2 : 0 < K2) : StrictMonoOn (DSLangmuir_spreading_pressure nm1 K1 nm2 K2) (Set.Ioi 0) :=
+  (PgVerif.C11.dslangmuir_spread_strictMonoOn nm1 K1 nm2 K2 hnm1 hK1 hnm2 hK2).mono Set.Ioi_subset_Ici_self
+
+theorem tslangmuir_spreading_strictMonoOn (nm1 nm2 nm3 K1 K2 K3 : ℝ) (hnm1 : 0 < nm1) (hnm2 : 0 < nm2)
+    (hnm3 : 0 < nm3) (hK1 : 0 < K1) (hK2 : 0 < K2) (hK3 : 0 < K3) :
+    StrictMonoOn (TSLangmuir_spreading_pressure nm1 nm2 nm3 K1 K2 K3) (Set.Ioi 0) :=
+  (PgVerif.C11.tslangmuir_spread_strictMonoOn nm1 nm2 nm3 K1 K2 K3 hnm1 hnm2 hnm3 hK1 hK2 hK3).mono
+    Set.Ioi_subset_Ici_self
+
+theorem quadratic_spreading_strictMonoOn (nm Ka Kb : ℝ) (hnm : 0 < nm) (hKa : 0 < Ka) (hKb : 0 < Kb) :
+    StrictMonoOn (Quadratic_spreading_pressure nm Ka Kb) (Set.Ioi 0) :=
+  (PgVerif.C11.quadratic_spread_strictMonoOn nm Ka Kb hnm hKa hKb).mono Set.Ioi_subset_Ici_self
+
+theorem freundlich_spreading_strictMonoOn (K m : ℝ) (hK : 0 < K) (hm : 0 < m) :
+    StrictMonoOn (Freundlich_spreading_pressure K m) (Set.Ioi 0) :=
+  (PgVerif.C11.freundlich_spread_strictMonoOn K m hK hm).mono Set.Ioi_subset_Ici_self
+
+theorem temkin_spreading_strictMonoOn (nm K tht : ℝ) (hnm : 0 < nm) (hK : 0 < K) (htht : tht < 4) :
+    StrictMonoOn (TemkinApprox_spreading_pressure nm K tht) (Set.Ioi 0) :=
+  PgVerif.C11.temkin_spread_strictMonoOn_partial nm K tht hnm hK htht
+
+/-- the closed form is a solution in the sense of `Solves` (Henry) -/
+theorem henry_closed_form_Solves (Ks ps : List ℝ) (hlen : Ks.length = ps.length) (hne : Ks ≠ [])
+    (hK : ∀ K ∈ Ks, 0 < K) (hp : ∀ p ∈ ps, 0 < p) :
+    Solves (Ks.map Henry_spreading_pressure) ps (mixX Ks ps) (mixS Ks ps) := by
+  obtain ⟨hl, hsum, hmem, hsp, -⟩ := henry_closed_form_solves Ks ps hlen hne hK hp
+  refine ⟨by simp [hlen], hl.trans hlen, hsum, fun v hv => (hmem v hv).1, ?_⟩
+  intro i h1 h2
+  rw [List.getElem_map]
+  exact hsp i (by simpa using h1) h2
+
+/-- Henry mixtures: whatever the root finder returns, if it satisfies the IAST equations it IS the closed form:
+fractions `K_i p_i / S`, spreading pressure `S`, loadings `n_i = K_i p_i`. -/
+theorem henry_result_unique (Ks ps xs : List ℝ) (c : ℝ) (hlen : Ks.length = ps.length) (hne : Ks ≠ [])
+    (hK : ∀ K ∈ Ks, 0 < K) (hp : ∀ p ∈ ps, 0 < p) (h : Solves (Ks.map Henry_spreading_pressure) ps xs c) :
+    xs = mixX Ks ps ∧ c = mixS Ks ps ∧
+    loadings xs (List.zipWith Henry_loading Ks (fictitious ps xs)) = List.zipWith (· * ·) Ks ps := by
+  have hu := solution_unique (Ks.map Henry_spreading_pressure) ps xs (mixX Ks ps) c (mixS Ks ps)
+    (by
+      intro π hm
+      obtain ⟨K, hKm, rfl⟩ := List.mem_map.mp hm
+      exact henry_spreading_strictMonoOn K (hK K hKm)) hp h
+    (henry_closed_form_Solves Ks ps hlen hne hK hp)
+  refine ⟨hu.1, hu.2, ?_⟩
+  rw [hu.1]
+  exact (henry_closed_form_solves Ks ps hlen hne hK hp).2.2.2.2
+
+/-- the closed form is a solution in the sense of `Solves` (equal-capacity Langmuir) -/
+theorem langmuir_equal_capacity_closed_form_Solves (nm : ℝ) (Ks ps : List ℝ) (hnm : 0 < nm)
+    (hlen : Ks.length = ps.length) (hne : Ks ≠ []) (hK : ∀ K ∈ Ks, 0 < K) (hp : ∀ p ∈ ps, 0 < p) :
+    Solves (Ks.map fun K => Langmuir_spreading_pressure K nm) ps (mixX Ks ps)
+      (nm * Real.log (1 + mixS Ks ps)) := by
+  obtain ⟨hl, hsum, hmem, hsp, -⟩ := langmuir_equal_capacity_closed_form_solves nm Ks ps hnm hlen hne hK hp
+  refine ⟨by simp [hlen], hl.trans hlen, hsum, fun v hv => (hmem v hv).1, ?_⟩
+  intro i h1 h2
+  rw [List.getElem_map]
+  exact hsp i (by simpa using h1) h2
+
+/-- Equal-capacity Langmuir mixtures: any solution of the IAST equations is the extended-Langmuir closed form. -/
+theorem langmuir_equal_capacity_result_unique (nm : ℝ) (Ks ps xs : List ℝ) (c : ℝ) (hnm : 0 < nm)
+    (hlen : Ks.length = ps.length) (hne : Ks ≠ []) (hK : ∀ K ∈ Ks, 0 < K) (hp : ∀ p ∈ ps, 0 < p)
+    (h : Solves (Ks.map fun K => Langmuir_spreading_pressure K nm) ps xs c) :
+    xs = mixX Ks ps ∧ c = nm * Real.log (1 + mixS Ks ps) ∧
+    loadings xs (List.zipWith (fun K q => Langmuir_loading K nm q) Ks (fictitious ps xs))
+      = List.zipWith (fun K p => nm * K * p / (1 + mixS Ks ps)) Ks ps := by
+  have hu := solution_unique (Ks.map fun K => Langmuir_spreading_pressure K nm) ps xs (mixX Ks ps) c
+    (nm * Real.log (1 + mixS Ks ps))
+    (by
+      intro π hm
+      obtain ⟨K, hKm, rfl⟩ := List.mem_map.mp hm
+      exact langmuir_spreading_strictMonoOn K nm (hK K hKm) hnm) hp h
+    (langmuir_equal_capacity_closed_form_Solves nm Ks ps hnm hlen hne hK hp)
+  refine ⟨hu.1, hu.2, ?_⟩
+  rw [hu.1]
+  exact (langmuir_equal_capacity_closed_form_solves nm Ks ps hnm hlen hne hK hp).2.2.2.2
+
+/-- binary Langmuir mixture with arbitrary (different) capacities: at most one solution in `(0, 1)` -/
+theorem langmuir_binary_unique (K1 nm1 K2 nm2 p1 p2 x x' : ℝ) (hK1 : 0 < K1) (hnm1 : 0 < nm1) (hK2 : 0 < K2)
+    (hnm2 : 0 < nm2) (hp1 : 0 < p1) (hp2 : 0 < p2) (hx : x ∈ Set.Ioo (0 : ℝ) 1) (hx' : x' ∈ Set.Ioo (0 : ℝ) 1)
+    (e : Langmuir_spreading_pressure K1 nm1 (p1 / x) = Langmuir_spreading_pressure K2 nm2 (p2 / (1 - x)))
+    (e' : Langmuir_spreading_pressure K1 nm1 (p1 / x') = Langmuir_spreading_pressure K2 nm2 (p2 / (1 - x'))) :
+    x = x' :=
+  binary_solution_unique _ _ (langmuir_spreading_strictMonoOn K1 nm1 hK1 hnm1)
+    (langmuir_spreading_strictMonoOn K2 nm2 hK2 hnm2) p1 p2 hp1 hp2 x x' hx hx' e e'
+
+/-! ## D. non-vacuity -/
+
+example : complete [(1 / 4 : ℚ), 1 / 4] = [1 / 4, 1 / 4, 1 / 2] := by norm_num [complete]
+
+example : fractionsValid (complete [(1 / 4 : ℚ), 1 / 4]) = true := by decide +kernel
+
+example : fractionsValid (complete [(3 / 4 : ℚ), 1 / 2]) = false := by decide +kernel
+
+/-- `x = [1/4, 3/4]`, pure-component loadings `[2, 6]`: `1/n_t = 1/8 + 1/8`, `n_t = 4`, loadings `[1, 3]` -/
+example : loadings [(1 / 4 : ℚ), 3 / 4] [2, 6] = [1, 3] := by
+  norm_num [loadings, totalLoading, inverseLoading]
+
+example : inverseLoading [(1 / 4 : ℚ), 3 / 4] [2, 6] ≠ 0 := by norm_num [inverseLoading]
+
+example : fictitious (partialPressures [(1 / 4 : ℚ), 3 / 4] 2) [1 / 2, 1 / 2] = [1, 3] := by
+  norm_num [fictitious, partialPressures]
+
+example : selectivity (1 : ℚ) 3 (1 / 2) (1 / 2) = 1 / 3 := by norm_num [selectivity]
+
+example : vleX (1 : ℚ) 3 = 1 / 4 := by norm_num [vleX]
+
+/-- a concrete binary Henry mixture `K = [2, 1]`, `p = [1, 2]`: `S = 4`, `x = [1/2, 1/2]` -/
+example : mixS [2, 1] [1, 2] = 4 ∧ mixX [2, 1] [1, 2] = [1 / 2, 1 / 2] := by
+  norm_num [mixS, mixX]
+
+/-- the hypotheses of the uniqueness theorems are satisfiable: this mixture solves the IAST equations -/
+example : Solves [Henry_spreading_pressure 2, Henry_spreading_pressure 1] [1, 2] [1 / 2, 1 / 2] 4 := by
+  have h := henry_closed_form_Solves [2, 1] [1, 2] rfl (by simp) (by simp) (by simp)
+  have e : mixS [2, 1] [1, 2] = 4 ∧ mixX [2, 1] [1, 2] = [1 / 2, 1 / 2] := by norm_num [mixS, mixX]
+  rw [e.1, e.2] at h
+  simpa using h
+
+/-- and its IAST loadings are `n_i = K_i p_i = [2, 2]` -/
+example : loadings [(1 / 2 : ℝ), 1 / 2]
+    [Henry_loading 2 (1 / (1 / 2)), Henry_loading 1 (2 / (1 / 2))] = [2, 2] := by
+  norm_num [loadings, totalLoading, inverseLoading, henry_loading_eq]
+
 end PgVerif.Props.C13
